@@ -151,6 +151,33 @@ theorem closure_input_invariant (s : ℝ) (hs : s ≠ 0) (P : PotSpec ℝ) (σ r
     (scaleE s P).eval σ r / (s * kT) = P.eval σ r / kT := by
   rw [potential_homogeneous]; field_simp
 
+/-- `cost` never reads `kT` (it enters only through `closure.potential = U/kT`, fixed at construction): changing the stored
+`kT` alone changes nothing but that field -/
+theorem cost_ignores_kT {inv : ℕ → Array ℝ → Array ℝ} (p q : Prism ℝ) (k' : ℝ) (x : Array ℝ) (h : p.cost inv x = .ok q) :
+    ({ p with kT := k' } : Prism ℝ).cost inv x = .ok { q with kT := k' } := by
+  unfold Prism.cost at h ⊢
+  simp only [bind, Except.bind, pure, Except.pure, Prism.closureStep] at h ⊢
+  split at h; · cases h
+  split at h; · cases h
+  split at h; · cases h
+  split at h; · cases h
+  split at h; · cases h
+  split at h; · cases h
+  split at h; · cases h
+  split at h; · cases h
+  cases h
+  rfl
+
+/-- **energy scaling, whole evaluation**: two objects that differ only by the factor `s` in every energy parameter and in
+`kT` hold the same `closure.potential` arrays (`closure_input_invariant`), hence every `cost` evaluation — and so every root
+and every structural result — is identical; only the stored `kT` (used by `pmf` and the solvation potential) differs -/
+theorem cost_energy_scaling {inv : ℕ → Array ℝ → Array ℝ} (p q : Prism ℝ) (s : ℝ) (x : Array ℝ) (h : p.cost inv x = .ok q) :
+    ∃ q', ({ p with kT := s * p.kT } : Prism ℝ).cost inv x = .ok q' ∧ q'.y = q.y ∧ q'.totalCorr = q.totalCorr ∧ q'.directCorr = q.directCorr ∧
+      q'.kT = s * q.kT := by
+  refine ⟨_, cost_ignores_kT p q (s * p.kT) x h, rfl, rfl, rfl, ?_⟩
+  have := (C01.cost_static h).2.2.2.2.2.2.2.1
+  simp [this]
+
 /-- … and multiplies potentials of mean force by that factor: `−(s kT) ln g = s (−kT ln g)` -/
 theorem pmf_scales (s kT g : ℝ) : -(s * kT) * Real.log g = s * (-kT * Real.log g) := by ring
 
